@@ -802,6 +802,46 @@ def stride_function(rep, f, c, rule, fn):
                         cov.append((sub[2][1], 1))
         vn = variant_name(rv) if rv[0] == 'agg' else None
         key = None
+        # destination sub-strides stored on this path (functions that also take a destination stride)
+        if b.arg_count >= 2 and 'mut' in b.locals[2]['ty']:
+            dims2 = [int(x) for x in re.findall(r';\s*(\d+)\]', b.locals[2]['ty'])]
+            nsub = dims2[-1] if len(dims2) == 2 else 1
+            stored = set()
+
+            def dst_part(x):
+                x = strip(x)
+                if x == ('loc', 2):
+                    return 'all'
+                if x[0] == 'idx' and strip(x[1]) == ('loc', 2) and x[2][0] == 'c':
+                    return x[2][1]
+                return None
+            for e in p.events:
+                if e[0] == 'store':
+                    dp = dst_part(e[1])
+                    if dp is not None:
+                        stored |= set(range(nsub)) if dp == 'all' else {dp}
+                elif e[0] == 'call':
+                    for a in e[2]:
+                        dp = dst_part(a)
+                        if dp is not None:
+                            stored |= set(range(nsub)) if dp == 'all' else {dp}
+            need = None
+            if vn == 'None':
+                need = set(range(nsub))
+            elif vn == 'Some':
+                pay = rv[2][0]
+                cs_ = list(pay[2]) if pay[0] == 'agg' else [pay]
+                pos_ = fold(cs_[-1])
+                t_, k_ = add_terms(pos_)
+                need = set(range(min(nsub, k_ // 16 + 1)))
+            elif rv[0] == 'call':
+                need = set(range(nsub))
+            if need is not None:
+                n += 1
+                miss_ = sorted(need - stored)
+                rep.ob(rule + '.store', '%s:%s' % (fn, 'None' if vn == 'None' else ('Some@+%d' % (k_ if vn == 'Some' else 0) if vn == 'Some' else 'delegate')), not miss_,
+                       'the result counts units of destination sub-stride(s) %s as converted, but nothing is stored into them on this path' % miss_,
+                       site, {'stored': sorted(stored)}, c)
         if vn == 'None':
             n += 1
             miss = covered(cov, total)
@@ -934,6 +974,6 @@ def run(rep, f, c, rule, groups, stride=True):
     if stride:
         n = stride_level(rep, f, c, 'R-STRIDE')
         rep.count('stride.obligations:%s' % c, n)
-        rep.floor('R-STRIDE', 'stride-level obligations', n, 15, c)
+        rep.floor('R-STRIDE', 'stride-level obligations', n, 22, c)
         total += n
     return total
